@@ -705,9 +705,9 @@ M("c08-gt-applies-ge", "C08", ["C08.optable"],
 M("c08-and-built-by-or", "C08", ["C08.optable"],
   E(SP, "    ast.And: custom_and,", "    ast.And: custom_or,"))
 M("c08-regex-no-lookahead", "C08", ["C08.regex"],
-  E(SP, 'pattern = re.compile(r"\\!(?!=)|\\^|\\bv\\b")', 'pattern = re.compile(r"\\!|\\^|\\bv\\b")'))
+  E(SP, r"""|\!(?!=)|\^|\bv\b""" + '""")', r"""|\!|\^|\bv\b""" + '""")'))
 M("c08-regex-no-word-boundary", "C08", ["C08.regex"],
-  E(SP, 'pattern = re.compile(r"\\!(?!=)|\\^|\\bv\\b")', 'pattern = re.compile(r"\\!(?!=)|\\^|v")'))
+  E(SP, r"""|\!(?!=)|\^|\bv\b""" + '""")', r"""|\!(?!=)|\^|v""" + '""")'))
 M("c08-replacement-unpadded", "C08", ["C08.regex"],
   E(SP, 'replacements = {"!": "not ", "^": " and ", "v": " or "}', 'replacements = {"!": "not ", "^": "and", "v": " or "}'))
 M("c08-replacement-swapped", "C08", ["C08.regex"],
@@ -1005,6 +1005,14 @@ M("c11-f26-reintroduced", "C11", ["C11.who"],
   note="F26: send('__initial__') re-enters the initial state")
 M("c11-start-forgets-its-trigger", "C11", ["C11.who"],
   E("statemachine/engines/base.py", "        self._initial_trigger = trigger_data\n", ""))
+
+M("c08-f27-reintroduced", "C08", ["C08.regex"],
+  E("statemachine/spec_parser.py", 'pattern = re.compile(r"""("(?:[^"\\\\]|\\\\.)*"|\'(?:[^\'\\\\]|\\\\.)*\')|\\!(?!=)|\\^|\\bv\\b""")', 'pattern = re.compile(r"\\!(?!=)|\\^|\\bv\\b")'),
+  E("statemachine/spec_parser.py", '        if match.group(1) is not None:\n            return match.group(0)  # a string literal: unchanged\n', ""),
+  note="F27: operators rewritten inside string literals")
+M("c08-literal-match-replaced-like-an-operator", "C08", ["C08.regex"],
+  E("statemachine/spec_parser.py", '        if match.group(1) is not None:\n            return match.group(0)  # a string literal: unchanged\n', ""),
+  note="a matched string literal is looked up in the replacement table")
 
 # ----------------------------------------------------------------------------------------- C17
 M("c17-clone-resets-allow-event", "C17", ["C17.carry"],
